@@ -108,7 +108,17 @@ func (c *codecImpl) put(t uint8, idx uint32, kind string, val []byte) bool {
 		case 1:
 			c.buf.PutInt16(op, idx, int16(x))
 		default:
-			c.buf.PutAny(op, idx, x)
+			// PutAny picks the width from the Go type: every type that maps to a 2-byte operation
+			switch {
+			case (v/3)%4 == 1:
+				c.buf.PutAny(op, idx, int16(x))
+			case (v/3)%4 == 2 && x < 256:
+				c.buf.PutAny(op, idx, uint8(x))
+			case (v/3)%4 == 3 && (x < 128 || x >= 0xff80):
+				c.buf.PutAny(op, idx, int8(int16(x)))
+			default:
+				c.buf.PutAny(op, idx, x)
+			}
 		}
 	case "f4":
 		if len(val) != 4 {
@@ -123,7 +133,14 @@ func (c *codecImpl) put(t uint8, idx uint32, kind string, val []byte) bool {
 		case 2:
 			c.buf.PutFloat32(op, idx, math.Float32frombits(x))
 		default:
-			c.buf.PutAny(op, idx, int32(x))
+			switch (v / 4) % 3 {
+			case 0:
+				c.buf.PutAny(op, idx, int32(x))
+			case 1:
+				c.buf.PutAny(op, idx, x)
+			default:
+				c.buf.PutAny(op, idx, math.Float32frombits(x))
+			}
 		}
 	case "f8":
 		if len(val) != 8 {
@@ -144,7 +161,18 @@ func (c *codecImpl) put(t uint8, idx uint32, kind string, val []byte) bool {
 		case 5:
 			c.buf.PutNumber(op, idx, math.Float64frombits(x))
 		default:
-			c.buf.PutAny(op, idx, int64(x))
+			switch (v / 7) % 5 {
+			case 0:
+				c.buf.PutAny(op, idx, int64(x))
+			case 1:
+				c.buf.PutAny(op, idx, x)
+			case 2:
+				c.buf.PutAny(op, idx, math.Float64frombits(x))
+			case 3:
+				c.buf.PutAny(op, idx, int(x))
+			default:
+				c.buf.PutAny(op, idx, uint(x))
+			}
 		}
 	case "s":
 		if len(val) > 65535 {
@@ -156,7 +184,14 @@ func (c *codecImpl) put(t uint8, idx uint32, kind string, val []byte) bool {
 		case 1:
 			c.buf.PutString(op, idx, string(val))
 		default:
-			c.buf.PutAny(op, idx, string(val))
+			switch (v / 3) % 3 {
+			case 0:
+				c.buf.PutAny(op, idx, string(val))
+			case 1:
+				c.buf.PutAny(op, idx, val)
+			default:
+				c.buf.PutAny(op, idx, &rec{b: val}) // encoding.BinaryMarshaler
+			}
 		}
 	default:
 		return false
